@@ -184,14 +184,35 @@ def check(pid, reg, args, seed, t_start):
             if ob['status'] == 'UNDECIDED' and 'reason' not in ob:
                 ob['reason'] = r.get('reason', 'no verdict')
             obligations.append(ob)
-        # failures -> playback + replay files
-        for ob in obligations:
-            if ob['class'] == 'K' and ob['status'] == 'FAILED':
-                full = [f for f, (k, name, c) in to_run.items() if name == ob['id']][0]
-                pb = None
-                if to_run[full][0].get('expect', 'success') == 'success':
-                    pb = kani_run.playback(scratch, full)
-                violations.append(make_violation(pid, ob, pb, full))
+        # failures -> one violation per obligation id (slices grouped); counterexample from the paired
+        # execution search if the obligation names one (seconds), else Kani concrete playback (minutes)
+        failed_by_spec = {}
+        for full, (k, name, cell) in to_run.items():
+            ob = [o for o in obligations if o['id'] == name][0]
+            if ob['status'] == 'FAILED':
+                failed_by_spec.setdefault(k['id'], []).append((full, k, name, cell, ob))
+        for sid, items in failed_by_spec.items():
+            full, k, name, cell, ob = items[0]
+            gob = dict(ob)
+            gob['id'] = sid
+            if len(items) > 1 or k.get('sliced'):
+                gob['detail'] = (ob.get('detail') or '') + ' [failing slices: %s]' % ', '.join('%s %s' % (n, c) for _, _, n, c, _ in items[:40])
+            viol = make_violation(pid, gob, None, full)
+            if k.get('paired_leaf'):
+                lr = leaf_run.run(scratch, [dict(k['paired_leaf'], id=sid + '.search')], tier, seed, jobs=args.jobs)
+                for res in lr:
+                    if res.get('failures'):
+                        viol['input'] = res['failures'][0]
+                        viol['input_source'] = 'paired execution search on the real crate (leaf runner %s)' % k['paired_leaf']['check']
+                        viol['more_inputs'] = [f['key'] for f in res['failures'][1:20]]
+                        viol['no_input'] = False
+            if viol.get('no_input', True) and k.get('expect', 'success') == 'success' and not os.environ.get('VERIF_NO_PLAYBACK'):
+                pb = kani_run.playback(scratch, full, wall_timeout=int(os.environ.get('VERIF_PLAYBACK_TIMEOUT') or 900))
+                if pb:
+                    viol['kani_concrete_playback'] = pb
+                    viol['input_source'] = 'Kani concrete playback (kani::any() values in call order)'
+                    viol['no_input'] = not pb.get('values')
+            violations.append(viol)
         samples.append({'kani_cmd': kr['cmd'], 'wall_s': round(kr['wall'], 1)})
         assumptions.append('woven (cfg(kani)-only additions): ' + '; '.join(woven))
 
